@@ -179,7 +179,7 @@ def gen_driver(inv, T, tier):
         tps = f["tparams"]
         if len(tps) == 1 and tps[0]["kind"] == "type":
             tn = tps[0]["n"]
-            for o in others:
+            for o in (others if f["kind"] == "ctor" or f["sname"] == "operator=" else NUMERIC):
                 m = {"NumericType": T, tn: o}
                 args = ", ".join("mk<%s>()" % _subst(p, m) for p in f["params"])
                 k += 1
